@@ -905,3 +905,411 @@ class C15(NlpCheck):
                 self.violation("certificate gap does not shrink as M grows: gaps for M=1,2,4,8 are %s" % gaps, {"desc": base, "gaps": gaps},
                                {"kind": "inf-not-tight"})
                 return
+
+
+# ---------------------------------------------------------------------------------------------
+# C12: stage trees
+def rebind(tb, stage, desc):
+    """a Built for a clone: shares the template's symbols, bound to the clone stage"""
+    b = B.Built()
+    b.desc = desc
+    b.ocp = stage
+    for k in ('states', 'qstates', 'controls', 'algs', 'params', 'vars', 'fx', 'fu', 'fz', 'fq', 'fp', 'fv'):
+        setattr(b, k, getattr(tb, k))
+    fx, fu, fz, fq, fp, fv = b.fx, b.fu, b.fz, b.fq, b.fp, b.fv
+
+    def sym_base(kind, i):
+        tab = {'x': fx, 'u': fu, 'z': fz, 'xq': fq, 'p': fp[''], 'pc': fp['control'], 'pcp': fp['control+'],
+               'v': fv[''], 'vc': fv['control'], 'vcp': fv['control+']}
+        if kind in tab:
+            return tab[kind][i]
+        return {'t': stage.t, 'T': stage.T, 't0': stage.t0, 'DT': stage.DT, 'DTc': stage.DT_control}[kind]
+    b.sym_base = sym_base
+    return b
+
+
+def stage_fingerprint(st):
+    """what a template is, as far as the public accessors and declared lists show"""
+    return {
+        'states': len(st.states), 'qstates': len(st.qstates), 'controls': len(st.controls), 'algebraics': len(st.algebraics),
+        'parameters': {k: len(v) for k, v in st.parameters.items() if len(v)},
+        'variables': {k: len(v) for k, v in st.variables.items() if len(v)},
+        'constraints': {k: [str(c) for c, _, _ in v] for k, v in st._constraints.items() if len(v)},
+        'objective': str(st._objective), 'ders': sorted(str(v) for v in st._state_der.values()),
+        'placeholders': len(st._placeholders), 'T': str(st._T), 't0': str(st._t0), 'stages': len(st._stages),
+        'param_vals': len(st._param_vals), 'initial': len(st._initial),
+    }
+
+
+STAGE_PROF = {'methods': [('ms', 'rk'), ('ms', 'euler'), ('ss', 'rk'), ('dc', 'rk'), ('ms', 'next')], 'grids': ['uniform', 'geometric', 'free', 'uniform_locT', 'data'],
+              'horizon': ['num', 'freeT', 'freet0', 'freeboth'], 'obj_kinds': ['at_tf', 'integral', 'sum', 'at_t0'], 'ncons': (0, 2),
+              'con_grids': ['control', 'integrator', 'point'],
+              'features': {'qstate': 0.4, 'p': 0.5, 'pc': 0.3, 'pcp': 0.2, 'v': 0.4, 'vc': 0.3, 'vcp': 0.2, 'time': 0.8, 'dae': 0.2},
+              'Ns': [1, 2, 3], 'Ms': [1, 2], 'nxs': [1, 2, 3], 'nus': [0, 1, 2], 'degrees': [1, 2, 3], 'horizon_in_signals': 0.3}
+
+
+def gen_multi(rng, extra=None):
+    prof = dict(STAGE_PROF)
+    if extra:
+        prof.update(extra)
+    md = {'templates': [], 'stages': [], 'refs': [], 'pvars': rng.choice([0, 1, 1, 2]), 'pcons': [], 'pobj': None}
+    n = rng.choice([2, 2, 3])
+    use_template = rng.random() < 0.6
+    if use_template:
+        md['templates'].append(G.gen_case(rng, prof))
+    for i in range(n):
+        if use_template and (i < 2 and rng.random() < 0.8):
+            td = md['templates'][0]
+            d = copy.deepcopy(td)
+            ov = []
+            for key in ('t0', 'T'):
+                if rng.random() < 0.6:
+                    ov.append(key)
+                    if rng.random() < 0.4:
+                        d[key] = ('free', Fr(rng.randint(1, 6), 2))
+                    else:
+                        d[key] = ('num', Fr(rng.randint(1, 8), 2))
+            md['stages'].append({'desc': d, 'clone_of': 0, 'override': ov})
+        else:
+            md['stages'].append({'desc': G.gen_case(rng, prof), 'clone_of': None})
+    descs = [s['desc'] for s in md['stages']]
+
+    def ref(r):
+        md['refs'].append(r)
+        return ('ph', len(md['refs']) - 1)
+
+    def stage_ph(i, kind):
+        """a fresh placeholder at_t0/at_tf(x_j) of stage i"""
+        d = descs[i]
+        nx = sum(d['states'])
+        e = ('x', rng.randrange(nx))
+        if rng.random() < 0.3:
+            e = ('*', E.C(G.coef(rng)), ('*', e, ('x', rng.randrange(nx))))
+        return ref(('ph', i, kind, e))
+    pv = [('v', j) for j in range(md['pvars'])]
+    # coupling pattern: consecutive stages are joined in state; in time when one side is free
+    for i in range(n - 1):
+        if rng.random() < 0.85:
+            md['pcons'].append({'rel': 'eq', 'a': stage_ph(i, 'at_tf'), 'b': stage_ph(i + 1, 'at_t0')})
+        free_side = descs[i + 1]['t0'][0] == 'free' or descs[i]['T'][0] == 'free' or descs[i]['t0'][0] == 'free'
+        if free_side and rng.random() < 0.8:
+            md['pcons'].append({'rel': 'eq', 'a': ref(('t0', i + 1)), 'b': ref(('tf', i))})
+    if pv:
+        for v in pv:
+            i = rng.randrange(n)
+            md['pcons'].append({'rel': rng.choice(['le', 'eq']), 'a': ('+', v, ('*', E.C(G.coef(rng)), stage_ph(i, rng.choice(['at_tf', 'at_t0'])))),
+                                'b': E.C(G.coef(rng))})
+    terms = []
+    for i in range(n):
+        if descs[i]['T'][0] == 'free' and rng.random() < 0.7:
+            terms.append(('*', E.C(abs(G.coef(rng))), ref(('T', i))))
+        if rng.random() < 0.4:
+            r = stage_ph(i, 'at_tf')
+            terms.append(('*', E.C(G.coef(rng)), ('*', r, r)))
+    for v in pv:
+        terms.append(('*', v, v))
+    if terms:
+        e = terms[0]
+        for t in terms[1:]:
+            e = ('+', e, t)
+        md['pobj'] = e
+    return md
+
+
+class MultiBuilt:
+    pass
+
+
+def declared_nx(opti):
+    """number of decision variables DECLARED on the Opti stack (opti.nx counts only those that occur in f or g)"""
+    import casadi as ca
+    adv = opti.advanced
+    return sum(s.numel() for s in adv.symvar() if adv.get_meta(s).type == ca.OPTI_VAR)
+
+
+def build_multi(md):
+    import casadi as ca
+    rockit = B.import_rockit()
+    mb = MultiBuilt()
+    mb.md = md
+    with B.quiet():
+        ocp = rockit.Ocp()
+        mb.ocp = ocp
+        mb.templates = [B.build(td, stage_factory=lambda **kw: rockit.Stage(**kw)) for td in md['templates']]
+        mb.fp_before = [stage_fingerprint(tb.ocp) for tb in mb.templates]
+        mb.bs = []
+        for sd in md['stages']:
+            if sd.get('clone_of') is not None:
+                tb = mb.templates[sd['clone_of']]
+                st = ocp.stage(tb.ocp, **B.horizon_kwargs(sd['desc'], keys=sd['override']))
+                b = rebind(tb, st, sd['desc'])
+            else:
+                b = B.build(sd['desc'], stage_factory=ocp.stage)
+            mb.bs.append(b)
+        mb.fp_after_clone = [stage_fingerprint(tb.ocp) for tb in mb.templates]
+        mb.pv = [ocp.variable() for _ in range(md['pvars'])]
+        ref_syms = []
+        for r in md['refs']:
+            if r[0] == 'ph':
+                _, i, kind, e = r
+                st = mb.bs[i].ocp
+                ce = E.to_casadi(e, mb.bs[i].sym_base)
+                ref_syms.append(st.at_tf(ce) if kind == 'at_tf' else st.at_t0(ce))
+            else:
+                st = mb.bs[r[1]].ocp
+                ref_syms.append({'T': st.T, 't0': st.t0, 'tf': st.tf}[r[0]])
+
+        def sym_parent(kind, i):
+            if kind == 'ph':
+                return ref_syms[i]
+            if kind == 'v':
+                return mb.pv[i]
+            raise KeyError(kind)
+        for c in md['pcons']:
+            A = E.to_casadi(c['a'], sym_parent)
+            Bv = E.to_casadi(c['b'], sym_parent)
+            ocp.subject_to(A == Bv if c['rel'] == 'eq' else A <= Bv)
+        if md['pobj'] is not None:
+            ocp.add_objective(E.to_casadi(md['pobj'], sym_parent))
+        ocp.solver('ipopt', {'ipopt.print_level': 0, 'print_time': False, 'ipopt.max_iter': 0, 'ipopt.sb': 'yes'})
+        ocp._transcribed
+        aug = ocp._augmented
+        for i, b in enumerate(mb.bs):
+            B.finish(b, master=ocp, meth=aug._stages[i]._method)
+        mb.fp_after_transcribe = [stage_fingerprint(tb.ocp) for tb in mb.templates]
+        opti = ocp._method.opti
+        mb.opti = opti
+        mb.nx_opti = opti.x.numel()
+        mb.np_opti = opti.p.numel()
+        mb.nx_declared = declared_nx(opti)
+        mb.Wnlp = Walker(ca.Function('nlp', [opti.x, opti.p], [opti.f, opti.g, opti.lbg, opti.ubg]))
+        if mb.pv:
+            mb.Wpv = Walker(ca.Function('pv', [opti.x, opti.p], [ca.vertcat(*[ocp.value(v) for v in mb.pv])]))
+    return mb
+
+
+def stage_model_desc(md, i):
+    """the description of child i as the model sees it: its own description plus the placeholders the parent created on it"""
+    d = copy.deepcopy(md['stages'][i]['desc'])
+    idx = {}
+    for k, r in enumerate(md['refs']):
+        if r[0] == 'ph' and r[1] == i:
+            d['phs'] = list(d['phs']) + [(r[2], r[3])]
+            idx[k] = len(d['phs']) - 1
+    return d, idx
+
+
+def multi_lines(md, physs, pvals):
+    L = ["mbegin"]
+    ref_idx = {}
+    for i in range(len(md['stages'])):
+        d, idx = stage_model_desc(md, i)
+        ref_idx.update(idx)
+        L += Mo.desc_lines(d)
+        L += Mo.point_lines(d, physs[i])
+        L.append("stage_push")
+    for k, r in enumerate(md['refs']):
+        if r[0] == 'ph':
+            L.append("mref ph %d %d" % (r[1], ref_idx[k]))
+        else:
+            L.append("mref %s %d" % (r[0], r[1]))
+    L.append("mV " + Mo.rats(pvals))
+    for cid, c in enumerate(md['pcons']):
+        L.append("mcon %d %s 1" % (cid, c['rel']))
+        L.append("ma " + E.to_tokens(c['a']))
+        L.append("mb " + E.to_tokens(c['b']))
+    if md['pobj'] is not None:
+        L.append("mobj " + E.to_tokens(md['pobj']))
+    return L
+
+
+def compare_multi(md, mb, driver, rng, R=2):
+    """→ (problems, n_model_atoms, n_impl_atoms, exact): whole-multiset comparison of the tree's NLP"""
+    pts = []
+    impl_pts, model_pts, fpairs = [], [], []
+    for _ in range(R):
+        for attempt in range(20):
+            xv = [rnd(rng) for _ in range(mb.nx_opti)]
+            pv = [rnd(rng, True) for _ in range(mb.np_opti)]
+            try:
+                f, g, lbg, ubg = mb.Wnlp([xv, pv])
+                physs = []
+                for b in mb.bs:
+                    fv = [rnd(rng) for _ in range(sum(s.numel() for s in b.free))] if b.free else None
+                    physs.append(B.eval_phys(b, xv, pv, fv))
+                pvals = [v[0] for v in mb.Wpv([xv, pv])[0]] if mb.pv else []
+                break
+            except ZeroDivisionError:
+                if attempt == 19:
+                    raise
+        pts.append((xv, pv))
+        impl_pts.append(B.atoms_of_impl(g, lbg, ubg))
+        driver.send(multi_lines(md, physs, pvals))
+        mf, rows = Mo.parse_nlp(driver.run('multi'))
+        model_pts.append(rows)
+        fpairs.append((mf, f[0]))
+    problems = []
+    exact = 0
+    for mf, (fi, mag) in fpairs:
+        if mf == fi:
+            exact += 1
+        elif not close(mf, fi, mag):
+            problems.append(('objective', {'model': float(mf), 'impl': float(fi)}))
+            break
+    n_imp = len(impl_pts[0])
+    if any(len(a) != n_imp for a in impl_pts):
+        problems.append(('rows', {'why': 'atom count varies between points'}))
+        return problems, 0, n_imp, exact, pts
+    impl_atoms = [[impl_pts[r][i] for r in range(R)] for i in range(n_imp)]
+    model_atoms = []
+    for ri, (tag, at) in enumerate(model_pts[0]):
+        for ai in range(len(at)):
+            model_atoms.append((tag, [model_pts[r][ri][1][ai] for r in range(R)]))
+    um, ui, ex = Mo.match_atoms(model_atoms, impl_atoms)
+    um = [(t, v) for t, v in um if not (all(x == v[0] for x in v) and v[0] >= 0)]
+    if um or ui:
+        problems.append(('rows', {'model_only': [(t, [float(x) for x in v]) for t, v in um][:8],
+                                  'impl_only': [(i, [float(v[0]) for v in impl_atoms[i]]) for i in ui][:8]}))
+    return problems, len(model_atoms), n_imp, exact + ex, pts
+
+
+@register
+class C12(Check):
+    pid = "C12"
+    slices = ["tree-nlp-vs-model", "template-unchanged", "solution-readback"]
+    uses_generated = True
+
+    def explanation(self):
+        return ("theorems: the NLP of a stage tree is the concatenation of the children's NLPs and the parent's own rows, the objective the sum; "
+                "a child's rows and placeholder values are functions of that child's description and point only (frame: replacing another "
+                "child changes nothing); parent expressions see a child only through its placeholders, T, t0, tf; clone = direct declaration "
+                "with the overridden horizon; over the regenerated table of Stage.clone: every specification container is carried over, nested "
+                "containers are deep-copied, every container that can mention the template's time placeholders goes through the substitution. "
+                "correspondence: EQUALITY of the whole atom multiset and of the objective between rockit's multi-stage NLP and the model's tree "
+                "NLP (children on different methods/grids/horizons, templates with integrals, quadrature states, time in right-hand sides, "
+                "several clones, parent variables, state and time coupling), children's physical quantities read back through stage.sample; "
+                "number of decision variables = sum over the children + parent; template fingerprints before/after cloning and transcription; "
+                "sol(stage).sample vs the symbolic map")
+
+    def generated_obligations(self):
+        from tools import extract
+        tab = extract.clonetable()
+        bad = [k for k, (kind, sub) in tab.items() if not extract.clone_requirement_ok(k, kind, sub)]
+        return len(tab), len(tab) - len(bad), ["clone table violations: %s" % bad] if bad else []
+
+    def correspondence(self):
+        self.tree_slice()
+        self.readback_slice()
+
+    def features(self, md, kind):
+        return {"kind": kind, "clones": sum(1 for s in md['stages'] if s.get('clone_of') is not None),
+                "methods": sorted(set(s['desc']['method']['kind'] for s in md['stages']))}
+
+    def run_multi(self, md, R):
+        mb = build_multi(md)
+        problems, nm, ni, ex, pts = compare_multi(md, mb, self.driver, self.rng, R)
+        return mb, problems, nm, ni, ex, pts
+
+    def tree_slice(self):
+        name = "tree-nlp-vs-model"
+        n = 25 if self.tier == 'quick' else 300
+        R = 2
+        fails = 0
+        for it in range(n):
+            md = gen_multi(self.rng)
+            try:
+                mb, problems, nm, ni, ex, pts = self.run_multi(md, R)
+            except (ZeroDivisionError, OverflowError):
+                continue
+            except Exception as ex_:
+                self.slice_ok[name] = False
+                feats = self.features(md, "exception")
+                tds = md['templates']
+                feats["template_time_dependent"] = bool(tds) and any(E.mentions(e, {'t'}) for e in tds[0]['ode'] + tds[0]['quad'] + [pe for k, pe in tds[0]['phs'] if k == 'integral'])
+                feats["template_quadrature_state"] = bool(tds) and tds[0]['nq'] > 0
+                self.violation("rockit raised on a well-posed stage tree: %s: %s" % (type(ex_).__name__, str(ex_)[:300].replace("\n", " ")),
+                               {"md": md}, feats)
+                fails += 1
+                if fails >= 3:
+                    return
+                continue
+            self.evaluations += 1
+            self.exact_rows += ex
+            self.signatures.add(repr([G.signature(s['desc']) for s in md['stages']] + [len(md['pcons']), md['pvars']])[:4000])
+            self.count("stages:%d" % len(md['stages']))
+            self.count("clones:%d" % sum(1 for s in md['stages'] if s.get('clone_of') is not None))
+            for s in md['stages']:
+                self.count("child-method:%s" % s['desc']['method']['kind'])
+                self.count("child-T:%s" % s['desc']['T'][0])
+            if len(self.samples) < 3:
+                self.samples.append({"stages": [{"method": s['desc']['method'], "clone_of": s.get('clone_of'), "T": s['desc']['T'][0]} for s in md['stages']],
+                                     "parent_constraints": len(md['pcons']), "model_atoms": nm, "impl_atoms": ni})
+            # number of decision variables: nothing beyond the children's and the parent's
+            msg = None
+            if problems:
+                kind, det = problems[0]
+                msg = ("multi-stage objective is not the parent's objective plus the children's: %s" % det) if kind == 'objective' else \
+                      ("multi-stage NLP rows are not the disjoint union of the children's rows and the parent's: %s" % str(det)[:600])
+            else:
+                exp_nx = self.expected_nx(md)
+                if exp_nx is not None and exp_nx != mb.nx_declared:
+                    msg = "the multi-stage NLP declares %d decision variables, the children and the parent account for %d" % (mb.nx_declared, exp_nx)
+            if msg is None:
+                for k, (f0, f1, f2) in enumerate(zip(mb.fp_before, mb.fp_after_clone, mb.fp_after_transcribe)):
+                    if f0 != f1 or f0 != f2:
+                        diff = [key for key in f0 if f0[key] != f1[key] or f0[key] != f2[key]]
+                        self.slice_ok["template-unchanged"] = False
+                        self.violation("cloning/transcribing changed the template: %s differ" % diff, {"md": md, "before": f0, "after_clone": f1, "after_transcribe": f2},
+                                       self.features(md, "template-changed"))
+                        return
+            if msg:
+                self.slice_ok[name] = False
+                self.violation(msg, {"md": md, "points": pts}, self.features(md, "tree-nlp"))
+                fails += 1
+                if fails >= 2:
+                    return
+
+    def expected_nx(self, md):
+        """decision variables of the children transcribed one by one, plus the parent's own"""
+        total = md['pvars']
+        for s in md['stages']:
+            try:
+                b = B.build(copy.deepcopy(s['desc']))
+            except Exception:
+                return None
+            total += declared_nx(b.opti)
+        return total
+
+    def readback_slice(self):
+        import casadi as ca
+        import numpy as np
+        name = "solution-readback"
+        n = 4 if self.tier == 'quick' else 40
+        for it in range(n):
+            md = gen_multi(self.rng, {'methods': [('ms', 'rk'), ('dc', 'rk')], 'features': {'qstate': 0.0, 'dae': 0.0, 'time': 0.0, 'p': 0.3},
+                                      'obj_kinds': ['at_tf'], 'ncons': (0, 0)})
+            try:
+                mb = build_multi(md)
+            except Exception:
+                continue
+            with B.quiet():
+                try:
+                    sol = mb.ocp.solve_limited()
+                except Exception:
+                    sol = mb.ocp.non_converged_solution
+                gist = np.array(sol.gist).flatten()
+            for i, b in enumerate(mb.bs):
+                with B.quiet():
+                    tn, vn = sol(b.ocp).sample(b.Xsym, grid='control')
+                    ts, vs = b.ocp.sample(b.Xsym, grid='control')
+                    F = ca.Function('f', [mb.ocp.gist], [ts, vs])
+                    tv, vv = F(gist)
+                self.evaluations += 1
+                self.count("readback-stage")
+                a1 = np.array(vn).reshape(np.array(tn).shape[0], -1)
+                a2 = np.array(vv).T.reshape(a1.shape)
+                if not (np.allclose(np.array(tn).flatten(), np.array(tv).flatten(), rtol=1e-10, atol=1e-12) and np.allclose(a1, a2, rtol=1e-9, atol=1e-12)):
+                    self.slice_ok[name] = False
+                    self.violation("sol(stage %d).sample differs from that stage's symbolic samples at the solver's vector" % i, {"md": md, "stage": i},
+                                   self.features(md, "readback"))
+                    return
